@@ -631,7 +631,11 @@ func TestVerifKeys(t *testing.T) {
 		for i, tok := range toks[1:] {
 			if in.Frames && i%5 == 4 {
 				/* a terminal resize between keys: no effect on the abstract state */
-				v.resize(40+rng.Intn(80), 2+rng.Intn(40))
+				if rng.Intn(6) == 0 {
+					v.resize(1+rng.Intn(14), 2+rng.Intn(12))
+				} else {
+					v.resize(40+rng.Intn(80), 2+rng.Intn(40))
+				}
 			}
 			if tok == "hookexit" {
 				v.releaseHooks(true)
@@ -709,7 +713,15 @@ func TestVerifKeys(t *testing.T) {
 			panicked, what, wedged = v.press(string(b), []byte{b})
 			done++
 			if done%7 == 0 {
-				v.resize(20+rng.Intn(100), 2+rng.Intn(50))
+				/* also terminals only a few columns wide, and very wide ones */
+				switch rng.Intn(5) {
+				case 0:
+					v.resize(1+rng.Intn(12), 2+rng.Intn(20))
+				case 1:
+					v.resize(200+rng.Intn(400), 2+rng.Intn(70))
+				default:
+					v.resize(20+rng.Intn(100), 2+rng.Intn(50))
+				}
 			}
 		}
 		v.hookCalls()
